@@ -130,12 +130,18 @@ def search(c, cfg, missing):
         bad = re.findall(r'⟨\.(plainWrite|sharedMutCall), "([^"]*)"⟩', m.group(3))
         if bad:
             what = ", ".join(f"{k} {t}" for k, t in bad)
-            wit = _driver(c, "c13 redsearch" if all(k == "plainWrite" for k, _ in bad) else "c13 updsearch")
-            c.notes.append(f"unsafe worker {m.group(1)}:{m.group(2)}: {what}; two-thread model of the unguarded read-modify-write: {wit}")
+            if any(k == "plainWrite" and t.startswith("append(") for k, t in bad):
+                # a per-goroutine buffer cut out of captured state: the workers' buffers share one backing array
+                wit = _driver(c, "c13 collsearch aliased") + " (buffers of their own: " + _driver(c, "c13 collsearch own") + ")"
+                c.notes.append(f"unsafe worker {m.group(1)}:{m.group(2)}: {what}; two workers collecting into slices of one backing array and reducing under the mutex: {wit}")
+            else:
+                wit = _driver(c, "c13 redsearch" if all(k == "plainWrite" for k, _ in bad) else "c13 updsearch")
+                c.notes.append(f"unsafe worker {m.group(1)}:{m.group(2)}: {what}; two-thread model of the unguarded read-modify-write: {wit}")
             c.violations.append(dict(
                 site=f"facts:c13/{m.group(1)}:{m.group(2)}", kind="worker-writes-shared-state-unguarded", found_input=False,
                 detail=what, replay=dict(worker=m.group(2), file=m.group(1), effects=what, model_witness=wit,
-                                         theorems="M3d.C13.facts_workers_safe")))
+                                         theorems="M3d.C13.facts_workers_safe, facts_collect_sites, collect_reduce_correct, collect_aliased_buffers_racy",
+                                         concrete="see the corr:c13 dcinterior / kmeans / heightmap / meshing and race: violations of this run")))
     m = re.search(r"def cacheScalarFunc : List String := \[(.*?)\]\n", src)
     if m and m.group(1).replace(" ", "") != '"decl:sync.Map","call:Load","call:Store"':
         wit = _driver(c, "c13 cachesearch claim")
@@ -163,6 +169,23 @@ def search(c, cfg, missing):
                 replay=dict(method=meth, writes=ws, model_witness=wit, model_local=ok,
                             theorems="M3d.C13.facts_queries_readonly, owned_state_noninterference, query_field_scratch_racy",
                             concrete="see the corr:c13 nestq / nestobj / rendersched / sharedq / sharedobj and race: violations of this run")))
+    m = re.search(r"def queryClosureWrites : List String := \[(.*?)\]\n", src)
+    if m and m.group(1).strip():
+        writes = re.findall(r'"((?:[^"\\]|\\.)*)"', m.group(1))
+        wit = _driver(c, "c13 qsearch field")
+        ok = _driver(c, "c13 qsearch local")
+        c.notes.append("query closures write variables captured from their constructor: " + "; ".join(writes) +
+                       f" -- two staged queries with the staging area shared by all calls: {wit}; with call-local staging: {ok}")
+        by_site = {}
+        for w in writes:
+            by_site.setdefault(w.split(":")[0], []).append(w.split(":", 1)[1].strip() if ":" in w else "")
+        for site, ws in sorted(by_site.items()):
+            c.violations.append(dict(
+                site=f"facts:c13/query-closure-writes-captured:{site}", kind="query-closure-writes-shared-variable", found_input=False,
+                detail=f"{site} writes {', '.join(ws)}",
+                replay=dict(closure=site, writes=ws, model_witness=wit, model_local=ok,
+                            theorems="M3d.C13.facts_query_closures_readonly, owned_state_noninterference, query_field_scratch_racy",
+                            concrete="see the corr:c13 nestsolid / nestsolid2 / sharedsolid / meshing and race: violations of this run")))
     return found
 
 
@@ -173,12 +196,14 @@ PROP = dict(
     thorough_seeds=4,
     post_corr=post_corr,
     search=search,
-    corr_theorems="M3d.C13.dcl_single_creation / readers_eq_sequential (mesh first queries, same index object), index_partition_race_free + concurrentMap_eq_sequential (rasterise, dc/mc populate, KMeans.Assign), mutex_reduction_correct (KMeans.Iterate), chan_each_index_once (render, mapc), updateAt_locked_is_max (height map), cache_memo_returns_fx (cachefunc, nestcache), owned_state_noninterference + query_local_scratch_eq_sequential (nestq, nestobj, rendersched, sharedq, sharedobj, derived3/2: a query that stages its results in state of its own call returns, under every schedule, what it returns alone; query_field_scratch_racy is the model witness for the interrupted-query schedule the harness forces): the model answer of every scenario is the answer of sequential use",
-    rule="scenario instances from one PRNG seed: N in {2,3,4,8,16,32} goroutines issuing first queries (Find/Neighbors/VertexSlice/IterateVertices/Find2) on a fresh 3D/2D mesh so that they race the lazy index build, plus identity of the index object; concurrent queries on shared and concurrently derived MeshToCollider/MeshToSDF/ColliderSolid (3D, 2D); sharedq/sharedobj: N goroutines with their own query lists on one library structure (ProfileCollider, wide JoinedCollider, TransformCollider, nested joins, the ColliderSolid/Inset/Hollow and ColliderToSDF derived from it; Objectify with a nowhere-constant ColorFunc, JoinedObject, FilteredObject, Translate/Rotate/Scale) over plain leaves; nestq/nestobj: the same structures over user-supplied leaves that report entry/exit to a gate -- goroutine A is parked at its k-th callback into user code (for objects also between Cast and the use of the material), goroutine B runs 1-3 complete queries, A continues; every park position k of A's query is tried (all when <= 10, else 10 sampled), answers of A, of B and of A afterwards vs sequential use; rendersched: a real RecursiveRayTracer.Render (MaxDepth 0, 1 sample: deterministic) of an Objectify'd scene in which the worker of a lit pixel P is held at its shadow-ray cast until another worker has cast the primary ray of a pixel Q of another color, image vs the one-goroutine rendering (hook VerifRenderSequential); RasterizeSolid/Rasterize/RasterizeColliderSolid, KMeans.Iterate+Assign (exact integer data), MarchingCubes/Search/Filter/C2F/DualContouring and MarchingCubes over ColliderSolid(ProfileCollider), RayCaster.Render (incl. an Objectify'd object) at GOMAXPROCS 2,3,4,8,16 vs GOMAXPROCS 1; HeightMap.AddSpheresSDF vs sequential replay of the recorded spheres; CacheScalarFunc free-running and (nestcache) with the first evaluation of f(x) parked at entry / at exit while another goroutine asks for the same x; kmeanssched: KMeans.Iterate over a user vector type whose Add holds the first merge into the shared sums open until a second merge is in flight (bounded wait: under the lock none can start), integer data, GOMAXPROCS 2-4 vs 1; mapCoordinates index hand-out. distinct = distinct op lines. The free-running scenarios run a second time under the race detector (GOMAXPROCS >= 8); the gated ones are fully synchronised by construction and are not.",
+    corr_theorems="M3d.C13.dcl_single_creation / readers_eq_sequential (mesh first queries, same index object), index_partition_race_free + concurrentMap_eq_sequential (rasterise, dc/mc populate, KMeans.Assign), mutex_reduction_correct + mutex_reduction_eq_sequential_all_worker_counts (KMeans.Iterate), collect_reduce_correct + collect_eq_sequential_all_worker_counts (dcinterior: per-goroutine buffers appended to the shared result by the reduce function under the launcher's mutex give, for every worker count, the multiset one goroutine collects; collect_aliased_buffers_racy is the model witness for buffers cut out of one backing array), chan_each_index_once (render, mapc), updateAt_locked_is_max (height map), cache_memo_returns_fx (cachefunc, nestcache), owned_state_noninterference + query_local_scratch_eq_sequential (nestq, nestobj, nestsolid, nestsolid2, rendersched, sharedq, sharedobj, sharedsolid, sdfhist, derived3/2: a query that stages its results in state of its own call returns, under every schedule, what it returns alone; query_field_scratch_racy is the model witness for the interrupted-query schedule the harness forces): the model answer of every scenario is the answer of sequential use",
+    rule="scenario instances from one PRNG seed: N in {2,3,4,8,16,32} goroutines issuing first queries (Find/Neighbors/VertexSlice/IterateVertices/Find2) on a fresh 3D/2D mesh so that they race the lazy index build, plus identity of the index object; concurrent queries on shared and concurrently derived MeshToCollider/MeshToSDF/ColliderSolid (3D, 2D); sharedq/sharedobj: N goroutines with their own query lists on one library structure (ProfileCollider, wide JoinedCollider, TransformCollider, nested joins, the ColliderSolid/Inset/Hollow and ColliderToSDF derived from it; Objectify with a nowhere-constant ColorFunc, JoinedObject, FilteredObject, Translate/Rotate/Scale) over plain leaves; nestq/nestobj: the same structures over user-supplied leaves that report entry/exit to a gate -- goroutine A is parked at its k-th callback into user code (for objects also between Cast and the use of the material), goroutine B runs 1-3 complete queries, A continues; every park position k of A's query is tried (all when <= 10, else 10 sampled), answers of A, of B and of A afterwards vs sequential use; rendersched: a real RecursiveRayTracer.Render (MaxDepth 0, 1 sample: deterministic) of an Objectify'd scene in which the worker of a lit pixel P is held at its shadow-ray cast until another worker has cast the primary ray of a pixel Q of another color, image vs the one-goroutine rendering (hook VerifRenderSequential); RasterizeSolid/Rasterize/RasterizeColliderSolid, KMeans.Iterate+Assign (exact integer data), MarchingCubes/Search/Filter/C2F/DualContouring and MarchingCubes over ColliderSolid(ProfileCollider), RayCaster.Render (incl. an Objectify'd object) at GOMAXPROCS 2,3,4,8,16 vs GOMAXPROCS 1; HeightMap.AddSpheresSDF vs sequential replay of the recorded spheres; CacheScalarFunc free-running and (nestcache) with the first evaluation of f(x) parked at entry / at exit while another goroutine asks for the same x; nestsolid/nestsolid2: solids and fields built from function literals (SmoothJoinV2, SmoothJoin, SDFToSolid over TransformSDF/ProfileSDF, Joined/Intersected/SubtractedSolid, Translate/Rotate/Scale/VecScale+CacheSolidBounds, ProfileSolid and RevolveSolid over a 2-D structure; the 2-D twins) over user-supplied gated fields and solids -- A's Contains is parked at its k-th callback into a leaf (every k), B runs 1-3 complete Contains, A continues; query points are drawn near the structure's surface (2-10 bisection steps), where the answer depends most on the query's working state; sharedsolid: the free-running twin (N goroutines, 48 points each, 3-D and 2-D); sdfhist: a mesh field is asked tie points (centre / symmetry planes of cube, box, icosphere, torus, square, polygon) and random ones, then 40 unrelated queries, then the same points again (FaceSDF/PointSDF/NormalSDF must answer alike); dcinterior: DualContouring.MeshInterior with a BufferSize of 4-9 grid layers (3-13 buffer passes) at MaxGos 2,3,5,8 vs MaxGos 1, sorted interior points and mesh (the solid's Contains yields in the concurrent runs so that workers overlap); meshing2: MarchingSquares/Search/Filter/C2F at GOMAXPROCS 2,3,4,8,16 vs 1; kmeanssched: KMeans.Iterate over a user vector type whose Add holds the first merge into the shared sums open until a second merge is in flight (bounded wait: under the lock none can start), integer data, GOMAXPROCS 2-4 vs 1; mapCoordinates index hand-out. distinct = distinct op lines. The free-running scenarios run a second time under the race detector (GOMAXPROCS >= 8); the gated ones are fully synchronised by construction and are not.",
     trusted=[
         "modelled, not verified: the Go memory model (happens-before from program order, mutex, sequentially consistent atomics, channels) and the scheduler (any interleaving of atomic steps); a racy read returns the latest value in the interleaving (no weak-memory behaviours); index build and queries are single plain accesses of one cell; a query is a straight-line sequence of plain reads/writes (no branches) in owned_state_noninterference",
-        "the tie is the SHAPE of the code (go/ast, no type information): the statement sequence of getVertexToFace, mapCoordinates, updateAt, CacheScalarFunc and the syntactic class of every write/mutating call on captured state in every worker closure (plus plain writes of package-level variables in callees, resolved by name); 'own index' means the index expression mentions the worker's own parameter (injectivity of e.g. indices[i] -> (x,y) is not checked)",
+        "the tie is the SHAPE of the code (go/ast, no type information): the statement sequence of getVertexToFace, mapCoordinates, updateAt, CacheScalarFunc and the syntactic class of every write/mutating call on captured state in every worker closure (plus plain writes of package-level variables in callees, resolved by name, and writes/appends through a worker-local slice expression of captured state; a plain copy `buf := captured.f` is not tracked because without types it may be an array copy); 'own index' means the index expression mentions the worker's own parameter (injectivity of e.g. indices[i] -> (x,y) is not checked)",
         "'query methods do not write their receiver' (facts_queries_readonly) is syntactic: assignments whose root is the receiver, element writes/appends through a slice expression of a receiver field, and the same through methods of the same type; writes through other aliases (a pointer field copied into a local, a callee of another type) are invisible to it -- the interrupted-query and free-running scenarios and the race detector cover those only for the structures they build",
+        "query closures (facts_query_closures_readonly) are the function literals that reach FuncSolid / CheckedFuncSolid / FuncSDF / FuncPointSDF syntactically or are returned as a color function / by CacheScalarFunc; a literal stored in a struct field or handed through a helper, and writes through a captured pointer copied into a local, are invisible to it",
+        "collectProgN abstracts a worker's buffer to one cell and the append to the shared result to one read-modify-write step under the mutex; that the workers' backing arrays are distinct (hypothesis hinj of collect_reduce_correct) is the facts check 'no slice alias of captured state in the factory', not a proof about append; dcinterior relies on runtime.Gosched() in the user's Contains to make the workers overlap (nothing is forced)",
         "user-supplied leaves (Solid.Contains, SDF, Collider, Object.Cast, materials, ColorFunc) are assumed safe for concurrent calls",
         "the race detector only sees the schedules that occur in the run; it backs the theorem, it does not decide the property",
     ],
@@ -186,6 +211,6 @@ PROP = dict(
         "callers do not mutate a mesh/collider/solid while others read it (the property is about read-only use)",
         "user-supplied solids, SDFs, filters and materials are themselves safe for concurrent calls",
     ],
-    level_text="Theorems (Lean 4) over an interleaving semantics with happens-before, for EVERY schedule and every number of threads, proved by inductive invariants: double-checked creation of the vertex index builds exactly once, every reader gets the same fully built object and the sequential answer, no data race (dcl_single_creation, readers_eq_sequential); disjoint index hand-out never conflicts and equals the sequential map, instantiated with ConcurrentMap's strided hand-out (index_partition_race_free, concurrentMap_eq_sequential); mutex-guarded reduction equals the sequential fold for commutative-associative merges (mutex_reduction_correct); a pre-filled channel delivers every index exactly once (chan_each_index_once); updateAt under a mutex ends at the maximum with consistent 'changed' flags, the unsynchronised version has a decided two-thread race + lost-update witness (updateAt_locked_is_max, updateAt_racy); Load/compute/Store memoisation returns f(x) to every caller, claim-first has a decided witness (cache_memo_returns_fx, cache_claim_first_racy); immutable query structures: goroutines that write only state owned by their own call and read only that and the never-written structure are race-free and each computes exactly what it computes alone, for arbitrary straight-line query programs and any ownership map (owned_state_noninterference), instantiated with the staged query (query_local_scratch_eq_sequential), while staging in a field of the shared structure has a decided race + wrong-answer witness under the interrupted-query schedule (query_field_scratch_racy). Tie: M3d/Gen/ConcFacts.lean is regenerated from /repo with go/ast on every run and facts_* theorems require the extracted statement sequences to equal the modelled ones, every worker closure's effects on captured state to be in a proved-safe class, and none of the ~370 query methods (Collider/Solid/SDF/Object/Material/mesh queries of model2d, model3d, render3d, toolbox3d) to assign memory of its receiver (facts_queries_readonly, facts_queries_cover); the real scenarios are run concurrently vs sequentially (outputs must be identical) -- free-running, under schedules forced through gated user callbacks (every park position of the interrupted query; a real rendering with two workers forced to overlap), and once more under the race detector.",
+    level_text="Theorems (Lean 4) over an interleaving semantics with happens-before, for EVERY schedule and every number of threads, proved by inductive invariants: double-checked creation of the vertex index builds exactly once, every reader gets the same fully built object and the sequential answer, no data race (dcl_single_creation, readers_eq_sequential); disjoint index hand-out never conflicts and equals the sequential map, instantiated with ConcurrentMap's strided hand-out (index_partition_race_free, concurrentMap_eq_sequential); mutex-guarded reduction equals the sequential fold for commutative-associative merges (mutex_reduction_correct); per-goroutine buffers handed to a reduce function under the launcher's mutex reach the shared result exactly once when the goroutines' backing arrays are distinct, and with the library's strided hand-out the result is, for every worker count, the fold one goroutine computes (collect_reduce_correct, collect_eq_sequential_all_worker_counts, mutex_reduction_eq_sequential_all_worker_counts; strided_flatten_perm: the hand-outs are a permutation of 0..n-1), while buffers cut out of one backing array have a decided race + lost/duplicated-element witness (collect_aliased_buffers_racy); a pre-filled channel delivers every index exactly once (chan_each_index_once); updateAt under a mutex ends at the maximum with consistent 'changed' flags, the unsynchronised version has a decided two-thread race + lost-update witness (updateAt_locked_is_max, updateAt_racy); Load/compute/Store memoisation returns f(x) to every caller, claim-first has a decided witness (cache_memo_returns_fx, cache_claim_first_racy); immutable query structures: goroutines that write only state owned by their own call and read only that and the never-written structure are race-free and each computes exactly what it computes alone, for arbitrary straight-line query programs and any ownership map (owned_state_noninterference), instantiated with the staged query (query_local_scratch_eq_sequential), while staging in a field of the shared structure has a decided race + wrong-answer witness under the interrupted-query schedule (query_field_scratch_racy). Tie: M3d/Gen/ConcFacts.lean is regenerated from /repo with go/ast on every run and facts_* theorems require the extracted statement sequences to equal the modelled ones, every worker closure's effects on captured state to be in a proved-safe class, and none of the ~370 query methods (Collider/Solid/SDF/Object/Material/mesh queries of model2d, model3d, render3d, toolbox3d) to assign memory of its receiver (facts_queries_readonly, facts_queries_cover), none of the 34 query closures (function literals behind FuncSolid / CheckedFuncSolid / FuncSDF / FuncPointSDF, returned color functions) to assign a variable it did not declare (facts_query_closures_readonly, facts_query_closures_cover), and no worker to write through a slice alias of captured state (facts_workers_safe, facts_collect_sites); the real scenarios are run concurrently vs sequentially (outputs must be identical) -- free-running, under schedules forced through gated user callbacks (every park position of the interrupted query; a real rendering with two workers forced to overlap), and once more under the race detector.",
     level_note="The Go memory model and scheduler are modelled, not verified; the tie covers the shape of the code, not the runtime; the race detector sees only schedules that occur. Weak-memory effects, compiler reordering, goroutine starvation and panics inside workers are outside the model.",
 )
